@@ -14,8 +14,9 @@ from . import core
 def _findings(mod, src, prop):
     ctx = core.Ctx(prop, "quick", 0, lenient=src.canon and getattr(mod, "LENIENT", True))
     ctx.strict_rules = set(getattr(mod, "STRICT", ()))
+    ctx.src = src
     try:
-        mod.check(ctx, src)
+        core.run_check(mod, ctx, src)
     except core.Unresolved as e:
         ctx.unres("NEED", prop, str(e))
     except core.AnalysisError as e:
